@@ -188,7 +188,11 @@ def _expr_simp(e):
                 elif op == '>>':
                     o = i2.arg >> i1.arg
                 elif op == '<<':
-                    o = i2.arg << i1.arg
+                    if i1.arg >= i1.get_size():
+                        # every bit is shifted out (and do not build a huge integer)
+                        o = 0
+                    else:
+                        o = i2.arg << i1.arg
 
                 o = ExprInt(tab_size_int[i1.get_size()](o))
                 args.append(o)
@@ -280,7 +284,9 @@ def _expr_simp(e):
 
         # ((A & mask) >> shift) whith mask < 2**shift => 0
         if op == ">>" and isinstance(args[1], ExprInt) and isinstance(args[0], ExprOp) and args[0].op == "&":
-            if isinstance(args[0].args[1], ExprInt) and 2**args[1].arg >= args[0].args[1].arg:
+            if isinstance(args[0].args[1], ExprInt) and \
+                    (int(args[1].arg) >= args[0].get_size() or
+                     (1 << int(args[1].arg)) > int(args[0].args[1].arg)):
                 return ExprInt(tab_size_int[args[0].get_size()](0))
 
 
